@@ -189,8 +189,14 @@ def site_oracle(tier, v):
     r = rng('c13-sites')
     pool = ["it's", 'say "hi"', 'a `tick`', '{brace}', '[bracket]', '# hash', '// slashes', '/* block */', 'é 中 💸', 'two words',
             'line one\nline two', 'indented\n  more', "ends with quote'", 'colon: value', 'comma, separated', 'a = b', 'x;y', '<>', 'ref: > t.id']
+    # length classes: a renderer may switch style by length (one-line literal / block), the stored text may not change
+    for site in SITES:
+        for n_ in (79, 80, 81, 99, 100, 101, 119, 120, 121, 255, 256, 257, 1000):
+            t = ('lorem ipsum dolor ' * 70)[:n_].rstrip() + 'x'
+            if text_ok(site, t):
+                jobs.append((site, t))
     for _ in range(300 if tier == 'quick' else 5000):
-        t = ' '.join(r.choice(pool) for _ in range(r.randint(1, 3)))
+        t = ' '.join(r.choice(pool) for _ in range(r.choice([1, 1, 2, 3, 3, 12, 30])))
         site = r.choice(SITES)
         if text_ok(site, t):
             jobs.append((site, t))
